@@ -16,6 +16,7 @@ RECURSIVE SeqsUpTo(_, _)
 SeqsUpTo(S, n) == IF n = 0 THEN {<<>>} ELSE LET r == SeqsUpTo(S, n - 1) IN r \cup {Append(s, x) : s \in {t \in r : Len(t) = n - 1}, x \in S}
 Patterns == (SeqsUpTo(Small, MaxLen) \ {<<>>}) \cup {<<b>> : b \in Large} \cup {<<0, b>> : b \in Small \cup Large}
             \cup (IF WithUnbounded THEN {<<-1>>} ELSE {})
+            \cup {<<5>>, <<16>>, <<1, 2, 3, 4, 5, 6, 7>>, <<13, 1, 1, 40, 2>>}     \* a prime, a power of two, a ramp, an irregular one
 Drives == {[budgets |-> p, delay |-> d] : p \in Patterns, d \in Delays}
 
 RECURSIVE Enum(_)
